@@ -283,9 +283,6 @@ Proof.
 Qed.
 
 (* ------------------------------------------------------------------ the std-log bridge *)
-Definition hd_not_log (us : list frame) : bool :=
-  match us with f :: _ => negb (is_log_frame f) | [] => true end.
-
 Lemma count_log_prefix_app : forall lf us,
   forallb is_log_frame lf = true -> hd_not_log us = true -> count_log_prefix (lf ++ us) = length lf.
 Proof.
@@ -592,6 +589,191 @@ Proof.
   rewrite H1, H2, H3, H4. unfold cfg_caller_on, cfg_stack_on. f_equal. lia.
 Qed.
 
+(* ------------------------------------------------------------------ STACK-CONTEXT INDEPENDENCE
+   The goroutine's stack is [near ++ ctx]: [near] = the call site and as many of its callers as the
+   configured skip can reach; [ctx] = whatever else is on the stack further out -- ANY list of frames:
+   log-package frames (the call is nested in a Stringer that log.Printf is formatting, in the
+   io.Writer of an outer *log.Logger), zap frames (a hook, marshaler or sink of another logger),
+   runtime.gopanic, fmt, hundreds of recursion frames, or nothing (a fresh goroutine). *)
+Lemma hd_not_log_app : forall near ctx, near <> [] -> hd_not_log (near ++ ctx) = hd_not_log near.
+Proof. intros [|u r] ctx H; [congruence|reflexivity]. Qed.
+
+Lemma skipn_near : forall (k : nat) (near ctx : list frame),
+  (k < length near)%nat -> exists u r, skipn k near = u :: r /\ skipn k (near ++ ctx) = u :: r ++ ctx.
+Proof.
+  intros k near ctx H. rewrite skipn_app. replace (k - length near)%nat with 0%nat by lia. cbn [skipn].
+  destruct (skipn k near) as [|u r] eqn:E.
+  - apply (f_equal (@length frame)) in E. rewrite skipn_length in E. cbn in E. lia.
+  - exists u, r. split; reflexivity.
+Qed.
+
+(* what the property demands depends on the context only through the tail of the trace *)
+Lemma expected_near : forall w c s skip near ctx u r,
+  skipn (Z.to_nat skip) near = u :: r ->
+  (Z.to_nat skip < length near)%nat ->
+  expected w c s skip (near ++ ctx)
+  = if negb w then NoEntry
+    else if negb c && negb s then Entry {| e_caller := None; e_stack := []; e_err := false |}
+    else Entry {| e_caller := if c then Some u else None;
+                  e_stack := if s then u :: drop_last (r ++ ctx) else [];
+                  e_err := false |}.
+Proof.
+  intros w c s skip near ctx u r E Hlt. unfold expected.
+  destruct (skipn_near (Z.to_nat skip) near ctx Hlt) as [u' [r' [E1 E2]]].
+  rewrite E in E1. injection E1 as <- <-. rewrite E2. reflexivity.
+Qed.
+
+Lemma nth_error_near : forall (k : nat) (near : list frame) u r,
+  skipn k near = u :: r -> nth_error near k = Some u.
+Proof. intros k near u r E. revert near E. induction k as [|k IH]; intros [|a near] E; cbn in *; try discriminate; [congruence|apply IH; exact E]. Qed.
+
+(* the reported caller -- and whether there is an entry, and the frame the trace starts at -- is a
+   function of the call site and the configured skip only: the same on any two stacks that share
+   the call site [near], whatever lies further out, for every front end and every chain *)
+Lemma context_independent_thm : forall fuel1 fuel2 core cs f lvl (near ctx1 ctx2 : list frame) storage1 storage2,
+  fe_sugared f = chain_kind cs -> 0 <= total_skip cs -> (1 <= storage1)%nat -> (1 <= storage2)%nat ->
+  (length (near ++ ctx1) + 12 <= fuel1)%nat -> (length (near ++ ctx2) + 12 <= fuel2)%nat ->
+  hd_not_log near = true -> (Z.to_nat (total_skip cs) < length near)%nat ->
+  let out1 := log_via fuel1 f (apply_chain (HL (new_logger core)) cs) lvl (near ++ ctx1) storage1 in
+  let out2 := log_via fuel2 f (apply_chain (HL (new_logger core)) cs) lvl (near ++ ctx2) storage2 in
+  caller_of out1 = caller_of out2 /\
+  hd_error (stack_of out1) = hd_error (stack_of out2) /\
+  is_entry out1 = is_entry out2 /\
+  (core (fe_level f lvl) = true -> cfg_caller_on cs = true ->
+   caller_of out1 = nth_error near (Z.to_nat (total_skip cs))).
+Proof.
+  intros fuel1 fuel2 core cs f lvl near ctx1 ctx2 storage1 storage2 Hk Ht Hs1 Hs2 Hf1 Hf2 Hus Hlt out1 out2.
+  assert (Hne : near <> []) by (intros ->; cbn in Hlt; lia).
+  unfold out1, out2.
+  rewrite !log_via_spec; try assumption; try (rewrite hd_not_log_app; assumption).
+  unfold expected_zap.
+  destruct (skipn_near (Z.to_nat (total_skip cs)) near [] Hlt) as [u [r [E _]]].
+  rewrite !(expected_near _ _ _ _ near _ u r E Hlt).
+  unfold cfg_caller_on.
+  destruct (core (fe_level f lvl)); cbn [negb].
+  2:{ repeat split; try reflexivity. intros H; discriminate H. }
+  destruct (cfg_caller false (chain_opts cs)); destruct (cfg_stack _ _ (fe_level f lvl));
+    cbn [negb andb caller_of stack_of is_entry e_caller e_stack hd_error]; repeat split; try reflexivity;
+    intros _ H; try discriminate H; symmetry; eapply nth_error_near; exact E.
+Qed.
+
+(* the trace: the call site's own chain from the reported frame on, then the context, whatever it
+   is and however deep, minus the final (runtime) frame *)
+Lemma stack_in_context_thm : forall fuel core cs f lvl (near ctx : list frame) storage,
+  fe_sugared f = chain_kind cs -> 0 <= total_skip cs -> (1 <= storage)%nat ->
+  (length (near ++ ctx) + 12 <= fuel)%nat ->
+  hd_not_log near = true -> (Z.to_nat (total_skip cs) < length near)%nat ->
+  core (fe_level f lvl) = true -> cfg_stack_on cs (fe_level f lvl) = true -> ctx <> [] ->
+  stack_of (log_via fuel f (apply_chain (HL (new_logger core)) cs) lvl (near ++ ctx) storage)
+  = skipn (Z.to_nat (total_skip cs)) near ++ removelast ctx.
+Proof.
+  intros fuel core cs f lvl near ctx storage Hk Ht Hst Hf Hus Hlt Hc Hs Hctx.
+  assert (Hne : near <> []) by (intros ->; cbn in Hlt; lia).
+  rewrite log_via_spec; try assumption; [|rewrite hd_not_log_app; assumption].
+  unfold expected_zap.
+  destruct (skipn_near (Z.to_nat (total_skip cs)) near [] Hlt) as [u [r [E _]]].
+  rewrite (expected_near _ _ _ _ near ctx u r E Hlt).
+  unfold cfg_stack_on in Hs. rewrite Hc, Hs, E. cbn [negb]. rewrite andb_false_r.
+  cbn [stack_of e_stack]. unfold drop_last. rewrite removelast_app by exact Hctx. reflexivity.
+Qed.
+
+(* zapslog: the same *)
+Lemma slog_context_independent_thm : forall fuel1 fuel2 core os m slvl (near ctx1 ctx2 : list frame) storage1 storage2,
+  0 <= hopts_skip os -> (1 <= storage1)%nat -> (1 <= storage2)%nat ->
+  (length (near ++ ctx1) + 8 <= fuel1)%nat -> (length (near ++ ctx2) + 8 <= fuel2)%nat ->
+  (Z.to_nat (hopts_skip os) < length near)%nat ->
+  let out1 := slog_log slog_handle fuel1 (new_handler core os) m slvl (near ++ ctx1) storage1 in
+  let out2 := slog_log slog_handle fuel2 (new_handler core os) m slvl (near ++ ctx2) storage2 in
+  caller_of out1 = caller_of out2 /\
+  (core (convertSlogLevel slvl) = true -> hcfg_caller false os = true ->
+   caller_of out1 = nth_error near (Z.to_nat (hopts_skip os))).
+Proof.
+  intros fuel1 fuel2 core os m slvl near ctx1 ctx2 storage1 storage2 Hs H1 H2 Hf1 Hf2 Hlt out1 out2.
+  unfold out1, out2. rewrite !slog_spec by assumption. unfold expected_slog.
+  destruct (skipn_near (Z.to_nat (hopts_skip os)) near ctx1 Hlt) as [u [r [E E1]]].
+  destruct (skipn_near (Z.to_nat (hopts_skip os)) near ctx2 Hlt) as [u' [r' [E' E2]]].
+  rewrite E in E'. injection E' as <- <-. rewrite E1, E2.
+  destruct (core (convertSlogLevel slvl)); cbn [negb caller_of e_caller hd_error].
+  - split; [reflexivity|]. intros _ Hon. rewrite Hon. symmetry. eapply nth_error_near. exact E.
+  - split; [reflexivity|]. intros H; discriminate H.
+Qed.
+
+(* the std-log bridge above ANY chain of log-package frames, in ANY context -- the context may
+   consist of log-package frames only *)
+Lemma std_context_independent_thm : forall fuel core cs lv (lf near ctx : list frame) storage l,
+  apply_chain (HL (new_logger core)) cs = HL l ->
+  0 <= total_skip cs -> (1 <= storage)%nat -> (length lf + length (near ++ ctx) + 6 <= fuel)%nat ->
+  forallb is_log_frame lf = true -> (length lf < stdLogScan)%nat ->
+  hd_not_log near = true -> (Z.to_nat (total_skip cs) < length near)%nat ->
+  core lv = true -> cfg_caller_on cs = true ->
+  caller_of (log_std fuel l lv lf (near ++ ctx) storage) = nth_error near (Z.to_nat (total_skip cs)).
+Proof.
+  intros fuel core cs lv lf near ctx storage l Hl Ht Hst Hf Hlf Hlen Hus Hlt Hc Hon.
+  assert (Hne : near <> []) by (intros ->; cbn in Hlt; lia).
+  rewrite (std_any_depth_thm fuel core cs lv lf (near ++ ctx) storage l); try assumption;
+    [|rewrite hd_not_log_app; assumption].
+  destruct (skipn_near (Z.to_nat (total_skip cs)) near [] Hlt) as [u [r [E _]]].
+  rewrite (expected_near _ _ _ _ near ctx u r E Hlt). rewrite Hc, Hon. cbn [negb andb caller_of e_caller].
+  symmetry. eapply nth_error_near. exact E.
+Qed.
+
+(* the variant that counts every log frame it scans (no [break]): on a stack without log frames
+   further out -- every call site reached from plain code -- it cannot be told from the code ... *)
+Lemma count_all_none : forall fs,
+  forallb (fun f => negb (is_log_frame f)) fs = true -> count_log_all fs = 0%nat.
+Proof.
+  induction fs as [|f r IH]; intros H; [reflexivity|].
+  cbn [forallb] in H. apply andb_true_iff in H. destruct H as [Hf Hr].
+  cbn [count_log_all]. apply negb_true_iff in Hf. rewrite Hf, IH by exact Hr. reflexivity.
+Qed.
+
+Lemma forallb_firstn : forall (A : Type) (p : A -> bool) n (l : list A),
+  forallb p l = true -> forallb p (firstn n l) = true.
+Proof.
+  intros A p. induction n as [|n IH]; intros [|a l] H; cbn in *; try reflexivity.
+  apply andb_true_iff in H. destruct H as [Ha Hl]. rewrite Ha, IH by exact Hl. reflexivity.
+Qed.
+
+Lemma count_all_prefix_plain : forall lf us n,
+  forallb is_log_frame lf = true -> forallb (fun f => negb (is_log_frame f)) us = true ->
+  count_log_all (firstn n (lf ++ us)) = count_log_prefix (firstn n (lf ++ us)).
+Proof.
+  induction lf as [|f lf IH]; intros us n Hlf Hus.
+  - cbn [app]. rewrite count_all_none by (apply forallb_firstn; exact Hus).
+    destruct n as [|n]; [reflexivity|]. destruct us as [|u r]; [reflexivity|].
+    cbn [forallb] in Hus. apply andb_true_iff in Hus. destruct Hus as [Hu _]. apply negb_true_iff in Hu.
+    cbn [firstn count_log_prefix]. rewrite Hu. reflexivity.
+  - cbn [forallb] in Hlf. apply andb_true_iff in Hlf. destruct Hlf as [Hf Hr].
+    destruct n as [|n]; [reflexivity|].
+    cbn [app firstn count_log_all count_log_prefix]. rewrite Hf, IH by assumption. reflexivity.
+Qed.
+
+Lemma std_countall_plain_agrees : forall fuel l lv lf us storage,
+  forallb is_log_frame lf = true -> forallb (fun f => negb (is_log_frame f)) us = true ->
+  log_std_countall fuel l lv lf us storage = log_std fuel l lv lf us storage.
+Proof.
+  intros fuel l lv lf us storage Hlf Hus. unfold log_std_countall, log_std, callers.
+  replace (Z.to_nat 4) with 4%nat by reflexivity. cbn [skipn].
+  rewrite count_all_prefix_plain by assumption. reflexivity.
+Qed.
+
+(* ... and in a context it names a frame of fmt: a Print made from a String method that
+   Printf of a log.Logger is formatting.  Stack: the call site 10 <- its caller 11 (String) <- 20, 21 (fmt)
+   <- 30 31 32 (the Printf closure, Logger.output, Logger.Printf of package log) <- 40 <- 99 *)
+Definition ctx_core : enabler := en_level DebugLevel.
+Definition ctx_chain : list conv := [CWithOptions [OWithCaller true]].
+Definition ctx_near : list frame := [FU 10; FU 11].
+Definition ctx_stringer : list frame := [FU 20; FU 21; FL 30; FL 31; FL 32; FU 40; FU 99].
+Lemma std_countall_refuted :
+  hd_not_log ctx_near = true /\ (Z.to_nat (total_skip ctx_chain) < length ctx_near)%nat /\
+  caller_of (log_std 100 (base_of (apply_chain (HL (new_logger ctx_core)) ctx_chain)) InfoLevel (std_frames 0 0)
+                     (ctx_near ++ ctx_stringer) initStorage) = Some (FU 10) /\
+  caller_of (log_std_countall 100 (base_of (apply_chain (HL (new_logger ctx_core)) ctx_chain)) InfoLevel (std_frames 0 0)
+                              (ctx_near ++ ctx_stringer) initStorage) = Some (FU 21) /\
+  caller_of (log_std_countall 100 (base_of (apply_chain (HL (new_logger ctx_core)) ctx_chain)) InfoLevel (std_frames 0 0)
+                              (ctx_near ++ [FU 40; FU 99]) initStorage) = Some (FU 10).
+Proof. vm_compute. repeat split; lia. Qed.
+
 (* ------------------------------------------------------------------ the behaviour before the fixes *)
 (* std-log bridge as found: log.Panic through NewStdLog names the log package as the caller *)
 Lemma std_orig_refuted :
@@ -852,13 +1034,14 @@ Proof.
   repeat constructor; vm_compute; try reflexivity; intros H; discriminate H.
 Qed.
 
-Lemma call_okb_ok : forall cs os cn, call_okb cs os cn = true -> hd_not_log (match fst cn with KZap _ _ _ us => us | _ => [] end) = true -> call_ok cs os cn.
+Lemma call_okb_ok : forall cs os cn, call_okb cs os cn = true -> call_ok cs os cn.
 Proof.
-  intros cs os [c storage] H Hus. unfold call_okb in H. cbn [fst snd] in *.
+  intros cs os [c storage] H. unfold call_okb in H. cbn [fst snd] in *.
   apply andb_true_iff in H. destruct H as [H Hst]. apply Nat.leb_le in Hst.
   split; [|exact Hst]. cbn [fst].
   destruct c as [extra f lvl us|m slvl us|tag].
-  - apply andb_true_iff in H. destruct H as [Hk Ht]. apply Bool.eqb_prop in Hk. apply Z.leb_le in Ht. auto.
+  - apply andb_true_iff in H. destruct H as [H Hus].
+    apply andb_true_iff in H. destruct H as [Hk Ht]. apply Bool.eqb_prop in Hk. apply Z.leb_le in Ht. auto.
   - apply Z.leb_le in H. exact H.
   - exact I.
 Qed.
@@ -872,24 +1055,19 @@ Proof.
   - induction l as [|a r IHr]; [reflexivity|]. now rewrite IH, IHr.
 Qed.
 
-Lemma dec_us_user : forall s, hd_not_log (dec_us s) = true.
-Proof. intros s. unfold dec_us. destruct (sx_l s); reflexivity. Qed.
-
 Lemma wire_calls_ok : forall cs os s,
   forallb (call_okb cs os) (wire_calls s) = true -> Forall (call_ok cs os) (wire_calls s).
 Proof.
   intros cs os s H. rewrite forallb_forall in H. apply Forall_forall. intros cn Hin.
-  apply call_okb_ok; [apply H; exact Hin|].
-  unfold wire_calls in Hin. apply in_map_iff in Hin. destruct Hin as [x [Hx _]]. subst cn. cbn [fst].
-  unfold dec_call. destruct (sx_z (sx_nth x 0)) as [|q|q]; try reflexivity; [apply dec_us_user|].
-  destruct q; reflexivity.
+  apply call_okb_ok. apply H. exact Hin.
 Qed.
 
 Theorem spec_model : forall i, wf i = true -> spec i (model i) = true.
 Proof.
   intros i Hwf. unfold spec, model, wf in *.
   destruct (sx_z (sx_nth i 0)) as [|p|p].
-  - apply andb_true_iff in Hwf. destruct Hwf as [Hk Ht].
+  - apply andb_true_iff in Hwf. destruct Hwf as [Hwf Hus].
+    apply andb_true_iff in Hwf. destruct Hwf as [Hk Ht].
     apply Bool.eqb_prop in Hk. apply Z.leb_le in Ht.
     rewrite log_via_spec.
     + apply sx_eqb_refl.
@@ -897,7 +1075,7 @@ Proof.
     + exact Ht.
     + unfold initStorage. lia.
     + unfold fuel_for. lia.
-    + apply dec_us_user.
+    + exact Hus.
   - destruct p as [p|p|]; [destruct p as [p|p|]|..]; try (rewrite trimmed_path_spec; apply sx_eqb_refl).
     + (* 3: a session *)
       rewrite session_thm.
